@@ -8,7 +8,7 @@ UNITS = {
     value_records=['VArg'],
     opaque_records=['UserEach', 'UserEachIf', 'VArg'],
     skip_records=['Handle_'],
-    type_rules=[(r'::Handle_?$', 'wp', 'Handle')],
+    type_rules=[(r'::Handle_?$', 'wp', 'Handle'), (r'^UserCallback$', 'function', 'Callback')],
     env_calls={'canContinueInvoking': 'canContinueInvoking'},
     ghost_sig=[('Node *', 'gK'), ('Node *', 'gW')],
     exc_edges=True,
@@ -38,7 +38,7 @@ UNITS['queue'] = dict(
     exc_edges=True,
     atomic_field_hooks={'Q.queueNotifyCounter': 'NOTIFYCNT'},
     type_rules=[
-      (r'^std::condition_variable$', 'condvar', 'CondVar'),
+      (r'^std::(_V2::)?condition_variable(_any)?$|^SingleThreading::ConditionVariable$', 'condvar', 'CondVar'),
       (r'^std::(__cxx11::)?list<', 'list', 'WList'),
       (r'^std::_List_(const_)?iterator<', 'listit', 'WIt'),
       (r'^std::tuple<VArg>$', 'record', 'ArgsTuple'),
